@@ -242,11 +242,54 @@ def _factors(t):
     return z3.simplify(coef), fs
 
 
+def _sqrt_pairs(s, facts, fs):
+    """sqrt(x) * sqrt(x) -> x  when x >= 0 is provable (the defining axiom of the sqrt model, used as a rewrite)"""
+    out = list(fs)
+    changed = True
+    while changed:
+        changed = False
+        for i in range(len(out)):
+            a = out[i]
+            if not (z3.is_app(a) and a.decl().name() == "sqrt"):
+                continue
+            for j in range(i + 1, len(out)):
+                b = out[j]
+                if z3.is_app(b) and b.decl().name() == "sqrt" and (a.eq(b) or _unsat(s, *facts, a.arg(0) != b.arg(0))) and _unsat(s, *facts, a.arg(0) < 0):
+                    x = a.arg(0)
+                    out = [f for k_, f in enumerate(out) if k_ not in (i, j)] + [x]
+                    changed = True
+                    break
+            if changed:
+                break
+    return out
+
+
+def _pre_sqrt(s, expr):
+    """apply the sqrt(x)*sqrt(x) -> x rewrite on the monomials of expr before sums are normalised"""
+    try:
+        e = z3.simplify(expr, som=True)
+    except z3.Z3Exception:
+        return expr
+    monos = e.children() if (z3.is_app(e) and e.decl().kind() == z3.Z3_OP_ADD) else [e]
+    out = None
+    for m in monos:
+        c, fs = _factors(m)
+        if sum(1 for f in fs if z3.is_app(f) and f.decl().name() == "sqrt") >= 2:
+            fs = _sqrt_pairs(s, [], fs)
+        t = c
+        for f in fs:
+            t = t * (z3.ToReal(f) if f.sort() == z3.IntSort() else f)
+        out = t if out is None else out + t
+    return out if out is not None else expr
+
+
 def cancels(s, facts, m1, m2) -> bool:
     """m1 + m2 == 0 : first by AC-matching of factors (each factor equality is a linear/UF query), then by
     asking the solver for the non-linear identity directly"""
     c1, f1 = _factors(z3.simplify(m1))
     c2, f2 = _factors(z3.simplify(m2))
+    if any(z3.is_app(f) and f.decl().name() == "sqrt" for f in f1 + f2):
+        f1, f2 = _sqrt_pairs(s, facts, f1), _sqrt_pairs(s, facts, f2)
     if len(f1) == len(f2) and z3.is_true(z3.simplify(c1 + c2 == 0)):
         s.push()
         s.add(*facts)
@@ -273,7 +316,10 @@ def cancels(s, facts, m1, m2) -> bool:
 def prove_equal(s: z3.Solver, lhs, rhs) -> bool:
     """True if  lhs == rhs  follows (under the assertions of s) by sum normalisation + cancellation"""
     try:
-        summands = normalise(lhs - rhs)
+        expr = lhs - rhs
+        if "sqrt" in expr.sexpr()[:100000]:
+            expr = _pre_sqrt(s, expr)
+        summands = normalise(expr)
         summands = unroll_small(s, summands)
         summands = _expand(summands)
         summands = collapse(s, summands)
